@@ -190,6 +190,10 @@ pub fn c05(tier: Tier, seed: u64) -> Verdict {
             break;
         }
     }
+    if merged.violation.is_none() {
+        // allocations made outside the crate's buffer management (none on the unchanged tree) are refused as well
+        merged.merge(super::sweeps::c05_global_refusals("C05"));
+    }
     merged.exhaustive = false;
     finish(
         "C05",
